@@ -132,11 +132,18 @@ class CodeData(DataclassHideDefault):
         Iterates through all the code data which are included,
         by processing the arguments recursively.
         """
-        for block in self.blocks:
-            for instruction in block:
-                arg = instruction.arg
-                if isinstance(arg, Constant) and isinstance(arg.constant, CodeData):
-                    yield arg.constant
+        # Yield the code data of each entry of the constants once, even if multiple
+        # instructions refer to it, including those that no instruction refers to
+        found: list[Constant] = []
+        args = [instruction.arg for block in self.blocks for instruction in block]
+        for arg in (*args, *self._additional_args):
+            if (
+                isinstance(arg, Constant)
+                and isinstance(arg.constant, CodeData)
+                and arg not in found
+            ):
+                found.append(arg)
+                yield arg.constant
 
     def all_code_data(self) -> Iterator[CodeData]:
         """
